@@ -46,6 +46,10 @@ func Run(r *rt.Run) error {
 		scs = append(scs, Scenario{Node: node, Kind: "panic", At: 2, N: n, Flood: 3500})
 	}
 	scs = append(scs, Scenario{Node: 2, Kind: "nodeErr", At: 2, N: n, Flood: 3500})
+	// no fault at all: the victim is stopped while a writer is blocked on its full fork edge; and a victim that
+	// rewrites a tag of the points it shares with the bystander
+	scs = append(scs, Scenario{Node: 1, Kind: "stoprace", At: 0, N: n, Flood: 1500})
+	scs = append(scs, Scenario{Node: 2, Kind: "share", At: 0, N: n})
 	reps := 1
 	if r.Thorough() {
 		reps = 5 // schedules differ from run to run (Go scheduler); every observed outcome must be allowed
@@ -103,7 +107,7 @@ func Run(r *rt.Run) error {
 		t.Event("Outcome", rt.M{"alive": x.out.Alive, "vDelivered": ints(x.out.VDelivered), "bDelivered": ints(x.out.BDelivered),
 			"vErrs": x.out.VErrs, "vNodeFailed": x.out.VNodeFailed, "bNodeFailed": x.out.BNodeFailed,
 			"stopReturned": x.out.StopReturned, "leaked": x.out.Leaked, "note": x.out.Note,
-			"flood": x.sc.Flood, "bFlood": x.out.BFlood, "writeBlocked": x.out.WriteBlocked})
+			"flood": x.sc.Flood, "bFlood": x.out.BFlood, "writeBlocked": x.out.WriteBlocked, "bTagsOK": x.out.BTagsOK})
 		t.Distinct(fmt.Sprintf("%d/%s/%d/%s/%d", x.sc.Node, x.sc.Kind, x.sc.At, x.sc.Trig, x.sc.Flood))
 	}
 	r.Extra["scenarios"] = len(scs)
